@@ -2,6 +2,10 @@
 //! and named graphs (as ASTs, simplest first) plus malformed / rejected requests (as raw text).
 use super::common::*;
 use crate::reference::sparql_ast::*;
+use crate::reference::update::RELATIVE_IRIS;
+
+/// the relative IRI of the universe: the IRIREF `<k>`, stored under the scheme-less lexical form `k`
+pub const K: &str = RELATIVE_IRIS[0];
 
 fn v(n: &str) -> T {
     T::var(n)
@@ -71,6 +75,7 @@ pub fn valid_updates() -> Vec<Update> {
     let mut v = core_updates();
     v.extend(extension_updates());
     v.extend(reference_rejected_updates());
+    v.extend(relative_iri_updates());
     v
 }
 
@@ -231,6 +236,104 @@ pub fn extension_raw() -> Vec<Req> {
     ]
 }
 
+/// Extension symbols over the RELATIVE IRI `<k>` (lexical form `k`, no scheme). Kolibrie's
+/// dictionary records no term kinds, so whether a template VARIABLE bound to `k` may stand in
+/// subject / predicate / graph position is decided there by reading the store (does the value look
+/// like an absolute IRI, name a graph, occur in that position of a stored quad?). These symbols
+/// make the answer depend on WHAT the store holds and WHEN it is read:
+/// * three INSERT DATA bring `k` in as object only / as subject and predicate / as graph name
+///   (constant template terms: no legality question), one DELETE DATA takes all of them out again
+///   (graph `k` stays behind as an empty named graph);
+/// * three rewrites DELETE every quad that holds the bound value in subject / predicate / graph
+///   position and INSERT a quad with the same variable in that position: legality must not be
+///   read from the store after the deletions;
+/// * one request binds `k` by VALUES - it need not occur in the store at all - and puts it into
+///   all three positions.
+/// Moving `k` from OBJECT position into subject / predicate / graph position is done by the
+/// existing symbols (core `INSERT {?o p ?s} WHERE {?s p ?o}`, swap, extension symbols 0 and 1).
+pub fn relative_iri_updates() -> Vec<Update> {
+    vec![
+        Update::InsertData(vec![dq(i(A), i(P), i(K))]),
+        Update::InsertData(vec![dq(i(K), i(P), i(A)), dq(i(A), i(K), i(B))]),
+        Update::InsertData(vec![gq(i(K), i(A), i(P), i(B))]),
+        Update::DeleteData(vec![dq(i(A), i(P), i(K)), dq(i(K), i(P), i(A)), dq(i(A), i(K), i(B)), gq(i(K), i(A), i(P), i(B))]),
+        // rewrite, subject: p-quads of the default graph become q-quads
+        Update::Modify { delete: Some(vec![dq(v("s"), i(P), v("o"))]), insert: Some(vec![dq(v("s"), i(Q), v("o"))]), pattern: bgp(vec![tp(v("s"), i(P), v("o"))]) },
+        // rewrite, predicate: whatever points at b points at c afterwards
+        Update::Modify { delete: Some(vec![dq(v("s"), v("r"), i(B))]), insert: Some(vec![dq(v("s"), v("r"), i(C))]), pattern: bgp(vec![tp(v("s"), v("r"), i(B))]) },
+        // rewrite, graph: p-quads of every named graph become q-quads of the same graph
+        Update::Modify {
+            delete: Some(vec![gq(v("g"), v("s"), i(P), v("o"))]),
+            insert: Some(vec![gq(v("g"), v("s"), i(Q), v("o"))]),
+            pattern: Group(vec![Elem::Graph(v("g"), bgp(vec![tp(v("s"), i(P), v("o"))]))]),
+        },
+        // k bound by VALUES (no occurrence in the store needed), instantiated as subject, predicate, graph
+        Update::Modify {
+            delete: None,
+            insert: Some(vec![dq(v("x"), i(P), i(A)), dq(i(A), v("x"), i(B)), gq(v("x"), i(A), i(P), i(B))]),
+            pattern: Group(vec![Elem::Values(vec!["x".into()], vec![vec![Some(i(K))]])]),
+        },
+    ]
+}
+
+/// IRIs and literals of the whole alphabet have disjoint lexical forms, and the reference's kind
+/// test tells them apart (the bare lexical value model has nothing else to go by): every written
+/// IRI is an IRI for `update::is_iri`, no written literal is.
+pub fn lexical_spaces_disjoint() -> Result<(), String> {
+    use crate::reference::update::is_iri;
+    fn terms_of_group(g: &Group, out: &mut Vec<T>) {
+        for e in &g.0 {
+            match e {
+                Elem::Triples(ts) => {
+                    for t in ts {
+                        out.extend([t.s.clone(), t.p.clone(), t.o.clone()]);
+                    }
+                }
+                Elem::Graph(gt, inner) => {
+                    out.push(gt.clone());
+                    terms_of_group(inner, out);
+                }
+                Elem::Union(bs) => {
+                    for b in bs {
+                        terms_of_group(b, out);
+                    }
+                }
+                Elem::Nested(inner) => terms_of_group(inner, out),
+                Elem::Filter(Expr::Cmp(a, _, b)) => out.extend([a.clone(), b.clone()]),
+                Elem::Values(_, rows) => {
+                    for r in rows {
+                        out.extend(r.iter().flatten().cloned());
+                    }
+                }
+                _ => {}
+            }
+        }
+    }
+    let mut terms: Vec<T> = Vec::new();
+    for r in alphabet() {
+        let Some(u) = r.model() else { continue };
+        let (quads, pattern): (Vec<&QuadT>, Option<&Group>) = match u {
+            Update::InsertData(q) | Update::DeleteData(q) | Update::DeleteWhere(q) => (q.iter().collect(), None),
+            Update::Modify { delete, insert, pattern } => (delete.iter().flatten().chain(insert.iter().flatten()).collect(), Some(pattern)),
+        };
+        for q in quads {
+            terms.extend([q.t.s.clone(), q.t.p.clone(), q.t.o.clone()]);
+            terms.extend(q.g.clone());
+        }
+        if let Some(g) = pattern {
+            terms_of_group(g, &mut terms);
+        }
+    }
+    for t in terms {
+        match &t {
+            T::Iri(s) if !is_iri(s) => return Err(format!("IRI <{}> of the alphabet is not an IRI for the reference", s)),
+            T::Lit(s) | T::Num(s) if is_iri(s) || s.starts_with("_:") => return Err(format!("literal {:?} of the alphabet is spelled like an IRI / blank node", s)),
+            _ => {}
+        }
+    }
+    Ok(())
+}
+
 /// Size of the core alphabet = the first `CORE_LEN` entries of `alphabet()` (25 core requests, the
 /// 3 requests the reference rejects, 8 malformed texts). Entries from `CORE_LEN` on are extension
 /// symbols.
@@ -244,5 +347,7 @@ pub fn alphabet() -> Vec<Req> {
     assert_eq!(v.len(), CORE_LEN);
     v.extend(extension_updates().into_iter().map(Req::Ast));
     v.extend(extension_raw());
+    // appended last: the indexes of the older symbols (recorded in replay files) do not move
+    v.extend(relative_iri_updates().into_iter().map(Req::Ast));
     v
 }
